@@ -169,7 +169,7 @@ func cmdCheck(argv []string) int {
 		}
 		rs := RunSpec{Entry: pkg + "." + hr.Entry, Args: hr.Args, Unwind: hr.Unwind, Workers: workers, Fuse: !hr.NoFuse, XCheck: true,
 			XCheck2: tier == "thorough", MergeAt: hr.MergeAt, Subst: hr.Subst, Known: knownIDs, Cosim: hr.Cosim, Timeout: hr.Timeout,
-			Props: map[string]bool{id: true}, SolverMs: 60000}
+			Props: map[string]bool{id: true}, AssertPrefixes: spec.Prefixes, SolverMs: 60000}
 		if tier == "thorough" {
 			rs.SolverMs = 120000
 		}
